@@ -52,7 +52,7 @@ Import ListNotations.
 From S4.Base Require Import Bytes Chunk.
 From S4.Spec Require Import LinesSpec WindowSpec.
 From S4.Spec Require RecordsSpec JournalSpec.
-From S4.Model Require Lines Syslines Search Merge Coord Strftime Print Summary Gate.
+From S4.Model Require Lines Syslines Search Merge Coord Strftime Print Summary Gate GateSpec.
 From S4.Model Require Calendar Year Records RecordRender LayoutDetect Evtx Journal.
 From S4.Gen Require FixedStructTables.
 From S4.Model Require Import Program.
@@ -2328,6 +2328,43 @@ Section TextKind.
     - apply cached_win_worker_correct; assumption.
   Qed.
 
+  (* stages 2 + 3 alone (KTextRows: stage 1 is the per-row analysis) *)
+  Lemma text_run_correct bs a b streamed (f : file) i : (0 < bs)%N -> file_ok dated f ->
+    exists out, text_run dated dtspan bs a b streamed f = (out, GOk) /\
+                Forall2 ev_sim (mk_events i out) (mk_events i (text_spec dated dtspan a b f)).
+  Proof.
+    intros H (CH & L2). unfold text_run.
+    destruct (worker_stream dated bs f streamed a b H CH L2) as (ms & E1 & E2 & E3).
+    rewrite E1. eexists. split; [reflexivity|].
+    unfold text_spec. rewrite <- E2. clear E1 E2.
+    induction ms as [|mb ms IH]; [constructor|].
+    inversion E3 as [|? ? [OK NEL] E3']; subst. cbn [map mk_events]. constructor; [|apply IH; exact E3'].
+    unfold ev_sim. cbn [Summary.e_src Summary.e_is_last Summary.e_msg fst snd].
+    split; [reflexivity|]. split; [reflexivity|]. apply pmsg_sim; assumption.
+  Qed.
+
+  Lemma text_run_c_correct bs rp a b streamed (f : file) i : (0 < bs)%N -> file_ok dated f ->
+    first_byte_ok dated f ->
+    exists out, text_run_c dated dtspan bs rp a b streamed f = (out, GOk) /\
+                Forall2 ev_sim (mk_events i out) (mk_events i (text_spec dated dtspan a b f)).
+  Proof.
+    intros H (CH & L2) FB. unfold text_run_c. destruct (cached_case a b streamed) eqn:CC.
+    - destruct (cached_worker_stream dated bs rp f streamed a b H CH L2 FB CC) as (sls & E1 & E2 & E3).
+      rewrite E1. eexists. split; [reflexivity|].
+      unfold text_spec. rewrite <- E2. clear E1 E2.
+      induction sls as [|s sls IH]; [constructor|].
+      inversion E3 as [|? ? [OK NEL] E3']; subst. cbn [map mk_events]. constructor; [|apply IH; exact E3'].
+      unfold ev_sim, cmsg_of. cbn [Summary.e_src Summary.e_is_last Summary.e_msg fst snd].
+      split; [reflexivity|]. split; [reflexivity|]. apply pmsg_sim; assumption.
+    - destruct (cached_win_stream dated bs rp f a b H CH L2 FB) as (ms & E1 & E2 & E3).
+      rewrite E1. eexists. split; [reflexivity|].
+      unfold text_spec. rewrite <- E2. clear E1 E2.
+      induction ms as [|mb ms IH]; [constructor|].
+      inversion E3 as [|? ? [OK NEL] E3']; subst. cbn [map mk_events]. constructor; [|apply IH; exact E3'].
+      unfold ev_sim. cbn [Summary.e_src Summary.e_is_last Summary.e_msg fst snd].
+      split; [reflexivity|]. split; [reflexivity|]. apply pmsg_sim; assumption.
+  Qed.
+
   (* the two reader machines send the same messages (up to line parts: the blocks a line spans are the same,
      so in fact the same parts; only the simulation is needed) *)
   Lemma text_spec_sorted a b (f : file) i : file_ok dated f ->
@@ -2371,7 +2408,7 @@ Section Main.
   Proof.
     intros H SP S G. inversion G as [|? ? G1 _]; subst. clear G.
     unfold worker_pure, spec_file_events, spec_out. unfold src_ok in S. cbv zeta.
-    destruct (pf_kind pf) as [|off mt|hint lname|recs|j] eqn:K.
+    destruct (pf_kind pf) as [|off mt|hint lname|recs|j|dbr rows] eqn:K.
     - destruct S as [S _]. apply text_worker_correct; assumption.
     - destruct S as ((tab & TB & OKF) & (tes & TE & OKE) & ND & F17). rewrite TE, TB.
       rewrite <- (early_stop_spec_eq O o off mt (pf_data pf) tab tes TB OKF TE ND F17).
@@ -2383,6 +2420,7 @@ Section Main.
     - assert (S' : src_ok O o pf) by (unfold src_ok; rewrite K; exact S).
       rewrite (journal_worker_correct O o j pf K S').
       eexists. split; [reflexivity|]. apply mk_events_sim. eapply journal_spec_sim; eassumption.
+    - destruct S as (r & SA & OKF & _). rewrite G1, SA. apply text_run_correct; assumption.
   Qed.
 
   (* the worker as the code runs it: text files over the cached reader machine *)
@@ -2392,35 +2430,40 @@ Section Main.
                 Forall2 ev_sim (mk_events i out) (spec_file_events O o i pf).
   Proof.
     intros H SP S G. unfold worker_out.
-    destruct (pf_kind pf) as [|off mt|hint lname|recs|j] eqn:K;
+    destruct (pf_kind pf) as [|off mt|hint lname|recs|j|dbr rows] eqn:K;
       try (apply worker_pure_correct; assumption).
-    inversion G as [|? ? G1 _]; subst. rewrite K in G1.
-    unfold spec_file_events, spec_out. unfold src_ok in S. rewrite K in *. cbv zeta.
-    destruct S as [S FB]. apply text_worker_c_correct; assumption.
+    - inversion G as [|? ? G1 _]; subst. rewrite K in G1.
+      unfold spec_file_events, spec_out. unfold src_ok in S. rewrite K in *. cbv zeta.
+      destruct S as [S FB]. apply text_worker_c_correct; assumption.
+    - inversion G as [|? ? G1 _]; subst. rewrite K in G1.
+      unfold spec_file_events, spec_out. unfold src_ok in S. rewrite K in *. cbv zeta.
+      destruct S as (r & SA & OKF & FB). rewrite G1, SA. apply text_run_c_correct; assumption.
   Qed.
 
   Lemma spec_source_sorted o i pf : src_ok O o pf ->
     StronglySorted Z.le (map ev_t (spec_file_events O o i pf)).
   Proof.
     intro S. unfold spec_file_events, spec_out. cbv zeta.
-    destruct (pf_kind pf) as [|off mt|hint lname|recs|j] eqn:K.
+    destruct (pf_kind pf) as [|off mt|hint lname|recs|j|dbr rows] eqn:K.
     - unfold src_ok in S. rewrite K in S. apply text_spec_sorted. exact (proj1 S).
     - unfold src_ok in S. rewrite K in S. destruct S as ((tab & TB & OK) & _). rewrite TB. apply text_spec_sorted. exact OK.
     - eapply records_spec_sorted; eassumption.
     - apply evtx_spec_sorted.
     - eapply journal_spec_sorted; eassumption.
+    - unfold src_ok in S. rewrite K in S. destruct S as (r & SA & OKF & _). rewrite SA. apply text_spec_sorted. exact OKF.
   Qed.
 
   Lemma spec_source_sim o pf : span_ok (o_dtspan O) -> src_ok O o pf ->
     Forall (fun mb : Print.msg * bool => msg_sim (fst mb) (fst mb)) (spec_out O o pf).
   Proof.
     intros SP S. unfold spec_out. cbv zeta.
-    destruct (pf_kind pf) as [|off mt|hint lname|recs|j] eqn:K.
+    destruct (pf_kind pf) as [|off mt|hint lname|recs|j|dbr rows] eqn:K.
     - apply text_spec_sim. exact SP.
     - destruct (yl_table O off mt (pf_data pf)); [apply text_spec_sim; exact SP|constructor].
     - eapply records_spec_sim; eassumption.
     - unfold src_ok in S. rewrite K in S. apply evtx_spec_sim; assumption.
     - eapply journal_spec_sim; eassumption.
+    - destruct (GateSpec.spec_accept dbr rows (pf_data pf)); [apply text_spec_sim; exact SP|constructor].
   Qed.
 
   Lemma workers_of_correct bs o (W : nat -> pfile -> list (Print.msg * bool) * gstatus) files :
